@@ -2,18 +2,21 @@ import p_conv
 import p_buffer
 import p_alloc
 import p_strops
+import p_format
 
 CHECKS = {}
 CHECKS.update(p_conv.CHECKS)
 CHECKS.update(p_buffer.CHECKS)
 CHECKS.update(p_alloc.CHECKS)
 CHECKS.update(p_strops.CHECKS)
+CHECKS.update(p_format.CHECKS)
 
 # executors to compile in setup (each check also builds what it needs on demand)
 PREBUILD = [
     dict(name="exec_conv"),
     dict(name="exec_buffer"),
     dict(name="exec_strops"),
+    dict(name="exec_format"),
     dict(name="exec_conv", variant="substitute", defines=["ST_DEFAULT_VALIDATION=ST::substitute_invalid"]),
     dict(name="exec_conv", variant="assume", defines=["ST_DEFAULT_VALIDATION=ST::assume_valid"]),
 ]
